@@ -174,7 +174,9 @@ async<void> consumer(qcase<Q, T> &c, int n) {
                 co_await c.q->pop();
                 out = "ok";
             } else {
-                auto &v = co_await c.q->pop();
+                // the future (and the item in it) must outlive the use of the reference co_await returns
+                future<T> f = c.q->pop();
+                T &v = co_await f;
                 out = "v:" + std::to_string(v.get());
             }
         } catch (const await_canceled_exception &) {
